@@ -617,7 +617,14 @@ impl<'a> FG<'a> {
             let fty = self.env.func_ty[f as usize];
             // structurally equal type under a different index, when there is one
             let same: Vec<u32> = (0..self.env.types.len() as u32).filter(|&i| self.env.types[i as usize] == self.env.types[fty as usize]).collect();
-            (*self.r.pick(&same), Some(slot))
+            // the dynamic check is structural: naming ANOTHER index of an equal type must succeed
+            let other: Vec<u32> = same.iter().copied().filter(|&i| i != fty).collect();
+            if !other.is_empty() && self.r.chance(3, 4) {
+                self.st.hit("call_indirect(other index of an equal type)");
+                (*self.r.pick(&other), Some(slot))
+            } else {
+                (*self.r.pick(&same), Some(slot))
+            }
         } else {
             (*self.r.pick(&tys), None)
         };
@@ -928,6 +935,15 @@ pub fn gen_case(r: &mut Rng, st: &mut Stats) -> (Case, Knobs) {
             for s in tab.iter_mut() { if r.chance(3, 4) { *s = Some(r.below(ntab_funcs as u64) as u32); } }
             env.table = tab.clone();
             env.table_callers_from = ntab_funcs;
+            // list the type of some table functions a second time (legal): call_indirect through the
+            // duplicate index must behave exactly like through the original one
+            for f in 0..ntab_funcs as usize {
+                if r.chance(1, 2) {
+                    let dup = env.types[env.func_ty[f] as usize].clone();
+                    env.types.push(dup);
+                    st.hit("type section: duplicate of a table function's type");
+                }
+            }
             m.table = Some(size as u32);
             // element segments: contiguous runs of initialised slots
             let mut j = 0;
